@@ -25,3 +25,20 @@ def setup_is_pure(f_units, f_space, o1, o2):
     second = _abi(opts[o2], sc)
     fresh = _abi(opts[o2], mk_script(f_units, f_space, 0, 1, 7))
     return second == fresh and rdscript_to_dict(sc) == before
+
+
+def drawn_seed_is_the_one_used(opt, f_space):
+    """no seed given: the seed handed to the native engine is the seed stored in the script the engine keeps (and returns with the
+    trajectory) and the one the caller's script reports - so that re-running the stored script reproduces the run"""
+    option = ["euler", "tauleap", "gillespie"][opt]
+    sysm = mk_system(0, f_space, 0)
+    sc = RDScript(sysm, [0, 1.0])                 # no rng_seed
+    lib = RecLib()
+    e = LibRDEngine(lib, option=option, requires_molecules=option != "euler")
+    e.setup(sc)                                   # the seed is NOT read before the set-up, as in simulate()
+    name, vals = [c for c in lib.log if c[0].startswith("engineexport_initialize")][0]
+    from vt.glue import GRAPH_NAMES
+    got = dict(zip(GRID_NAMES if name.endswith("grid") else GRAPH_NAMES, vals))["seed"]
+    kept = e._script.rng_seed
+    mine = sc.rng_seed
+    return isinstance(kept, int) and (got - kept) % (2 ** 32) == 0 and kept == mine and e._script.copy().rng_seed == kept
